@@ -193,6 +193,14 @@ def _canon_q(t):
 
     if isinstance(t, tuple) and t and t[0] == "forall":
         return ("not", ("exists", t[1], neg(t[2])))
+    if isinstance(t, tuple) and len(t) == 4 and t[0] == "cmp":
+        # one atom per comparison and its negation:  a != b is not (a == b),  a is not b is not (a is b),  a <= b is not (b < a)
+        if t[1] == "!=":
+            return ("not", ("cmp", "==", t[2], t[3]))
+        if t[1] == "is not":
+            return ("not", ("cmp", "is", t[2], t[3]))
+        if t[1] == "<=":
+            return ("not", ("cmp", "<", t[3], t[2]))
     return t
 
 
@@ -309,7 +317,7 @@ def _bool_positions(t, out: set, boolean: bool = False) -> None:
         out.add(t)
 
 
-def prop_equivalent(a, b, repo: Optional[Repo] = None, max_atoms: int = 12) -> Optional[bool]:
+def prop_equivalent(a, b, repo: Optional[Repo] = None, max_atoms: int = 12, alias: Optional[tuple] = None) -> Optional[bool]:
     """Are the two skeletons equal as functions of their atoms (maximal non-propositional subterms), over every
     valuation consistent with the class hierarchy (isinstance(x, Sub) implies isinstance(x, Super))?
     None if there is nothing propositional to compare or too many atoms."""
@@ -320,6 +328,11 @@ def prop_equivalent(a, b, repo: Optional[Repo] = None, max_atoms: int = 12) -> O
     _bool_positions(a, bools, True)
     _bool_positions(b, bools, True)
     batoms = [x for x in atoms if x in bools]
+    if alias is not None:
+        # ``alias = (B, A)``: atom B is given the truth value of atom A in every valuation ("if B were A")
+        if alias[0] not in batoms or alias[1] not in batoms:
+            return None
+        batoms = [x for x in batoms if x != alias[0]]
     if not batoms or len(batoms) > max_atoms:
         return None
     if a == b:
@@ -343,6 +356,8 @@ def prop_equivalent(a, b, repo: Optional[Repo] = None, max_atoms: int = 12) -> O
         if any(bits[i] and not bits[j] for i, j in impl):
             continue
         val = dict(zip(batoms, bits))
+        if alias is not None:
+            val[alias[0]] = val[alias[1]]
         if _ev(a, val) != _ev(b, val):
             prop_equivalent.witness = {show(k)[:60]: v for k, v in val.items()}  # type: ignore[attr-defined]
             return False
@@ -369,6 +384,8 @@ def _is_expr_leaf(t) -> bool:
         return len(t) == 3 and t[2] in (("const", "True"), ("true",)) and isinstance(t[1], tuple) and t[1][0] == "iter" and _is_expr_leaf(t[1][1])
     if t[0] in _EXPR_TAGS:
         return all(_is_expr_leaf(x) for x in t[1:] if isinstance(x, tuple))
+    if t[0] == "tuple" and len(t) == 2 and isinstance(t[1], tuple):
+        return all(_is_expr_leaf(x) for x in t[1])  # a display of plain expressions, e.g. (x - 1, x)
     return False
 
 
@@ -628,16 +645,64 @@ def strip_assuming(t):
     return tuple(strip_assuming(x) for x in t)
 
 
-def canon_sym(t):
+def _canon(t, lift: bool = False):
     """Order the operands of symmetric comparisons (==, !=) canonically (substitution / inlining can disturb it)."""
     if not isinstance(t, tuple):
         return t
-    t = tuple(canon_sym(x) for x in t)
+    t = tuple(_canon(x, lift) for x in t)
     if t and t[0] == "cmp" and len(t) == 4 and t[1] in ("==", "!="):
         a, b = sorted((t[2], t[3]), key=repr)
         return ("cmp", t[1], a, b)
+    if t and t[0] == "iter" and len(t) == 2 and isinstance(t[1], tuple) and t[1] and t[1][0] in ("iter", "concat"):
+        return t[1]  # iterating an iteration is that iteration
+    if t and t[0] == "call" and len(t) == 5:
+        from .skeleton import mk_ite
+
+        # a call through a method value:  (X.m)(args)  is  X.m(args)
+        if t[2] == "<call>" and isinstance(t[1], tuple) and t[1] and t[1][0] == "attr" and len(t[1]) == 3:
+            return _canon_l(lift, ("call", t[1][1], t[1][2], t[3], t[4]))
+        if t[2] == "<call>" and isinstance(t[1], tuple) and t[1] and t[1][0] == "name":
+            return _canon_l(lift, ("call", None, t[1][1], t[3], t[4]))
+        # a conditional receiver / callee / argument is a conditional call:  (f if c else g)(x) == f(x) if c else g(x);  h(a if c else b) == h(a) if c else h(b)
+        if lift and isinstance(t[1], tuple) and t[1] and t[1][0] == "ite":
+            _i, c, a, b = t[1]
+            return _canon_l(lift, mk_ite(c, ("call", a, t[2], t[3], t[4]), ("call", b, t[2], t[3], t[4])))
+        for k, arg in enumerate(t[3] if lift else ()):
+            if isinstance(arg, tuple) and arg and arg[0] == "ite":
+                _i, c, a, b = arg
+                return _canon_l(lift, mk_ite(c, ("call", t[1], t[2], t[3][:k] + (a,) + t[3][k + 1:], t[4]), ("call", t[1], t[2], t[3][:k] + (b,) + t[3][k + 1:], t[4])))
+            if isinstance(arg, tuple) and arg and arg[0] == "star" and isinstance(arg[1], tuple) and arg[1] and arg[1][0] == "ite":
+                _i, c, a, b = arg[1]
+                return _canon_l(lift, mk_ite(c, ("call", t[1], t[2], t[3][:k] + (("star", a),) + t[3][k + 1:], t[4]), ("call", t[1], t[2], t[3][:k] + (("star", b),) + t[3][k + 1:], t[4])))
+    if t and t[0] == "in" and len(t) == 3 and isinstance(t[2], tuple) and t[2] and t[2][0] == "tuple":
+        # membership in a display does not depend on the order of its elements
+        return ("in", t[1], ("tuple", tuple(sorted(t[2][1], key=repr))))
+    if t and t[0] == "exists" and len(t) == 3 and isinstance(t[2], tuple) and t[2] and t[2][0] == "or":
+        # Exists v: (A or B)  ==  (Exists v: A) or (Exists v: B)
+        from .skeleton import mk_or
+
+        return mk_or([("exists", t[1], x) for x in t[2][1]])
+    if t and t[0] == "forall" and len(t) == 3 and isinstance(t[2], tuple) and t[2] and t[2][0] == "and":
+        from .skeleton import mk_and
+
+        return mk_and([("forall", t[1], x) for x in t[2][1]])
     return t
 
+
+
+def _canon_l(lift: bool, t):
+    return _canon(t, lift)
+
+
+def canon_sym(t):
+    """Canonical form used for every comparison of skeletons (see _canon)."""
+    return _canon(t, False)
+
+
+def canon_lift(t):
+    """canon_sym plus: a conditional receiver / callee / argument of a call is lifted to a conditional call.  Semantics
+    preserving, but it duplicates the surrounding call, so point-edit counting is done on the unlifted form first."""
+    return _canon(t, True)
 
 def check_skeleton(ctx: Ctx, rule: str, fi: FuncInfo, specs: Sequence[str], what: str, inline_cls: Optional[str] = None, required_calls: Sequence[str] = (), ignore_asserts: bool = False) -> bool:
     """Compare; record ok / violation; raise AnalysisError when undecidable.
@@ -693,6 +758,18 @@ def check_skeleton(ctx: Ctx, rule: str, fi: FuncInfo, specs: Sequence[str], what
             ctx.ok(rule, fi.where, f"{what} (private helpers looked through): {show(looked)[:300]}", fi.node, fi)
             return True
         cands.append(looked)
+    # conditional calls lifted on both sides (tried after the plain forms)
+    lifted_specs = [canon_lift(sp) for sp in spec_terms]
+    if any(ls != sp for ls, sp in zip(lifted_specs, spec_terms)) or any(canon_lift(c) != c for c in cands):
+        for c in list(cands):
+            lc = canon_lift(c)
+            if lc in lifted_specs:
+                ctx.ok(rule, fi.where, f"{what}: {show(lc)[:300]}", fi.node, fi)
+                return True
+            for lsp in lifted_specs:
+                if prop_equivalent(lc, lsp, ctx.repo) is True:
+                    ctx.ok(rule, fi.where, f"{what}: {show(lc)[:300]}  (propositionally equal to the specification)", fi.node, fi)
+                    return True
     # (2) equal as functions of their atoms (case analyses restructured, guards nested differently, ...)
     for c in cands:
         for sp in spec_terms:
@@ -713,6 +790,11 @@ def check_skeleton(ctx: Ctx, rule: str, fi: FuncInfo, specs: Sequence[str], what
                 w = getattr(prop_equivalent, "witness", {})
                 ctx.violation(rule, fi, fi.node, f"{what}: implementation computes  {show(c)}  but the property requires  {show(sp)}  (they differ when {w})")
                 return False
+            # (5) restructured, and exactly one condition is a point change of the specified one
+            off = one_atom_off(c, sp, ctx.repo)
+            if off is not None:
+                ctx.violation(rule, fi, fi.node, f"{what}: the implementation tests  {show(off[0])[:200]}  where the property requires  {show(off[1])[:200]}  (every other condition agrees)")
+                return False
     raise AnalysisError(
         f"{fi.where}: skeleton {show(impl)[:200]} is neither the specification nor a point change of it: {show(spec_terms[0])[:200]}; cannot decide ({rule})"
     )
@@ -729,6 +811,11 @@ def classify_term(repo, impl, spec_terms) -> Tuple[str, str]:
     for sp in spec_terms:
         if prop_equivalent(impl, sp, repo) is True:
             return "ok", "propositionally equal"
+    li = canon_lift(impl)
+    for sp in spec_terms:
+        lsp = canon_lift(sp)
+        if li == lsp or prop_equivalent(li, lsp, repo) is True:
+            return "ok", "equal after lifting conditional calls"
     if has_unrecognised(impl):
         return "unknown", ""
     for sp in spec_terms:
@@ -737,4 +824,29 @@ def classify_term(repo, impl, spec_terms) -> Tuple[str, str]:
         if same_atoms(impl, sp) and prop_equivalent(impl, sp, repo) is False:
             w = getattr(prop_equivalent, "witness", {})
             return "violation", f"computes  {show(impl)}  but the property requires  {show(sp)}  (they differ when {w})"
+        off = one_atom_off(impl, sp, repo)
+        if off is not None:
+            return "violation", f"tests  {show(off[0])[:200]}  where the property requires  {show(off[1])[:200]}  (every other condition agrees)"
     return "unknown", ""
+
+
+def one_atom_off(impl, spec, repo=None) -> Optional[Tuple[object, object]]:
+    """The implementation and the specification are the same boolean function of the same conditions except that ONE
+    condition of the specification (B) appears in the implementation as a point change of it (A): returns (A, B).
+    This is the 'restructured code with one wrong condition' case; None when that is not what separates the two."""
+    xa: list = []
+    xb: list = []
+    _atoms(impl, xa)
+    _atoms(spec, xb)
+    only_a = [x for x in xa if x not in xb]
+    only_b = [x for x in xb if x not in xa]
+    if len(only_a) != 1 or len(only_b) != 1:
+        return None
+    A, B = only_a[0], only_b[0]
+    if has_unrecognised(A) or has_unrecognised(B):
+        return None
+    if edit_distance(A, B, 1) != 1:
+        return None
+    if prop_equivalent(impl, spec, repo, alias=(B, A)) is True:
+        return A, B
+    return None
